@@ -315,11 +315,10 @@ pub fn gen_remove_case(r: &mut Rng, id: u64) -> Value {
     }
     ops.push(json!({"op": "store_remove", "uri": {"of": 0}, "cb": true}));
     if still_open {
-        // the open handle keeps working on the unlinked file
-        let s = ops.len();
-        ops.push(json!({"op": "session_start", "h": {"slot": 0}, "profile": null, "txn": false, "cb": true}));
-        ops.push(json!({"op": "fetch", "h": {"slot": s}, "c": "c1", "n": "r0", "for_update": false, "cb": true}));
-        ops.push(json!({"op": "session_close", "h": {"slot": s}, "commit": false, "cb": true}));
+        // The store was removed while its handle is open: the file is unlinked.  What the open handle does from here on is not
+        // determined (an idle pooled connection keeps working on the unlinked file; a NEW pooled connection - opened whenever the
+        // previous one is not back in the pool yet - re-creates an empty file at the path and fails with Backend), so the handle
+        // is only closed, which must succeed.
         ops.push(json!({"op": "store_close", "h": {"slot": 0}, "cb": true}));
     }
     ops.push(json!({"op": "store_remove", "uri": {"of": 0}, "cb": true}));   // already gone
